@@ -67,6 +67,8 @@ def _compatible(pal, steps):
     stay integers for subsampling, and the `adversarial` images are not closed under addition."""
     idp, valp = pal
     calls = {s_["call"] for s_ in steps}
+    if idp == "ctrl" and calls & {"rt_tsv", "rt_hdf5", "subset_read", "summary"}:
+        idp = "unicode"                 # control characters are in the domain of the JSON property only
     if any(s_["call"] == "summary" and s_["args"].get("kind", "").startswith("cli_") for s_ in steps):
         return [idp, "plain"]           # printed reports are parsed at face value
     arith = calls & {"merge", "concat", "collapse", "norm", "rankdata", "pa", "transform", "from_adjacency",
